@@ -148,6 +148,8 @@ func protoFieldOf(v ssa.Value, pfields map[*types.Var]string) string {
 
 func runC05(r *Run) {
 	const P = "C05"
+	// the window is a submission-time rule: resolution re-parses anchored requests in batch mode (shared with C11)
+	r.checkApplierBatchMode(P)
 	appl := r.applierFuncs(P)
 	windowFns := map[*ssa.Function]bool{}
 
